@@ -3,6 +3,7 @@ package checks
 import (
 	"fmt"
 	"strings"
+	"time"
 
 	"verifharness/explore"
 	"verifharness/fw"
@@ -275,6 +276,9 @@ func (c02) Plan(tier string) []fw.Unit {
 			us = append(us, fw.Unit{Check: "C02", Kind: "enum", Tier: tier, Spec: fw.Spec(enumSpec{Cfg: i, Shard: s, Shards: shards})})
 		}
 	}
+	for s := 0; s < 8; s++ {
+		us = append(us, fw.Unit{Check: "C02", Kind: "idle", Tier: tier, Spec: fw.Spec(enumSpec{Shard: s, Shards: 8})})
+	}
 	bound := 1
 	if tier == "thorough" {
 		bound = 2
@@ -296,6 +300,9 @@ func (c02) Replay(v fw.Violation) (string, bool) {
 func (c02) Run(u fw.Unit) fw.Result {
 	if u.Kind == "sched" {
 		return runSched("C02", u, c02Scenarios(u.Tier))
+	}
+	if u.Kind == "idle" {
+		return c02Idle(u)
 	}
 	sp := parseEnum(u)
 	c := c02Configs(u.Tier)[sp.Cfg]
@@ -388,4 +395,105 @@ func hasTS(evs []c02Ev, ts int64) bool {
 		}
 	}
 	return false
+}
+
+// c02Idle: IDLETIMEOUT. Scripts of (Emit ts, Sleep d) steps on the virtual clock; a window may
+// only be delivered when an ingested event carries ts >= end + MAXOUTOFORDERNESS or when more
+// than IDLETIMEOUT of (virtual) time has passed since the last Emit.
+func c02Idle(u fw.Unit) fw.Result {
+	sp := parseEnum(u)
+	a := newAcc("C02", "det-idle")
+	tss := []int64{9500, 10500, 12500}
+	sleeps := []time.Duration{0, 3 * time.Second, 6 * time.Second}
+	const idle = 5 * time.Second
+	maxL := 3
+	if u.Tier == "thorough" {
+		maxL = 4
+	}
+	idx := 0
+	for _, kind := range []string{"tumbling", "sliding", "session"} {
+		for _, ooo := range []int64{0, 2000} {
+			cfg := c02Cfg{Kind: kind, OOOMs: ooo}
+			sql := strings.Replace(c02SQL(cfg), "TIMEUNIT='ms'", "TIMEUNIT='ms', IDLETIMEOUT='5s'", 1)
+			for L := 1; L <= maxL; L++ {
+				sequences(L, len(tss)*len(sleeps), func(seq []int) {
+					idx++
+					if idx%sp.Shards != sp.Shard {
+						return
+					}
+					type step struct {
+						TS    int64 `json:"ts"`
+						Sleep int   `json:"sleep_ms_after"`
+					}
+					steps := []step{{10000, 2000}}
+					for _, x := range seq {
+						steps = append(steps, step{tss[x/len(sleeps)], int(sleeps[x%len(sleeps)] / time.Millisecond)})
+					}
+					// timestamps are taken relative to the virtual "now": an idle advance moves the
+					// watermark to processing time, and the engine then walks every empty window between
+					// the data and now (decades of 2 s windows for epoch-1970 data: it never returns)
+					base := sched.Base.UnixMilli() - 10000
+					r := detExec(sql, detOpts{Eager: true, Horizon: 500 * time.Millisecond}, func(e *Env) {
+						for i, st := range steps {
+							e.Emit(Row{"id": i + 1, "k": "a", "ts": base + st.TS})
+							if st.Sleep > 0 {
+								e.Sleep(time.Duration(st.Sleep) * time.Millisecond)
+							}
+						}
+					})
+					a.r.Evaluations++
+					a.r.States++
+					a.r.Transitions += int64(r.Steps)
+					cs := map[string]any{"sql": sql, "steps": steps}
+					if r.ExecErr != "" || r.Status != sched.StatusOK {
+						a.fail("C02|idle|exec", r.ExecErr+" "+r.Status.String()+" "+firstLine(r.Panic), cs, nil, nil)
+						return
+					}
+					ds := c02Deliveries(r)
+					if len(ds) > 0 {
+						a.r.Nontrivial++
+					}
+					a.outcome(c02Canon(ds, nil))
+					bi := 0
+					for _, b := range r.Batches {
+						for range b {
+							d := ds[bi]
+							at := r.AtNs[biBatch(r, bi)]
+							bi++
+							maxTS := int64(-1 << 62)
+							lastEmit := int64(-1)
+							for j := 0; j < d.AtOps && j < len(steps); j++ {
+								if steps[j].TS > maxTS {
+									maxTS = steps[j].TS
+								}
+								lastEmit = r.OpNs[j]
+							}
+							if base+maxTS >= d.WE+ooo {
+								continue
+							}
+							if lastEmit >= 0 && at-lastEmit > int64(idle) {
+								return // idle advance: from here on the reference watermark does not apply
+							}
+							a.fail(fmt.Sprintf("C02|%s|fired-early-with-idle-timeout", kind), fmt.Sprintf("%s: window %s [%d,%d) (ms relative to the script's time base) delivered at virtual +%dms although the largest ingested timestamp is %d < end+OOO %d and the last Emit was only %dms earlier (IDLETIMEOUT 5s)", sql, d.WID, d.WS-base, d.WE-base, at/1e6, maxTS, d.WE-base+ooo, (at-lastEmit)/1e6), cs, nil, ds)
+							return
+						}
+					}
+				})
+			}
+		}
+	}
+	a.sample(map[string]any{"idle_timeout": "5s", "steps": "Emit ts in {9500,10500,12500} then Sleep in {0,3s,6s}, after a first Emit(10000)+2s"})
+	return a.result()
+}
+
+// biBatch maps the index of a delivered row to the index of its batch.
+func biBatch(r detResult, rowIdx int) int {
+	n := 0
+	for i, b := range r.Batches {
+		n += len(b)
+		if rowIdx < n {
+			return i
+		}
+	}
+	return len(r.Batches) - 1
 }
